@@ -1,6 +1,7 @@
 """C02 — encoded messages are well-formed FIX on the wire."""
 from ..facts import Program, AnalysisBroken, WITNESS_FIELDS
 from .. import q
+from . import c07
 
 CLAIM = {
     'text': 'Order, provenance and arithmetic rules on Message::encode(char**), BaseField::encode(char*) and the position index: header, '
@@ -22,7 +23,8 @@ EXPLANATION = (
     "_preamble_sz = 2 + |beginStr| + 1 + 3 at both definitions; R02.3 digit ladder `<10→1, <100→2 …` strictly increasing powers of ten, "
     "fmt_chksum ladder `>99→0, >9→1, else 2` into a '000' buffer; R02.4 BaseField::encode: itoa(tag) ≺ '=' ≺ print ≺ SOH; R02.5 "
     "MessageBase::encode iterates _pos (multimap<position, field>) and all five add_field bodies insert {pos, field}; groups: count field "
-    "then encode_group over _msgs in order. NOT decided: group count vs. element count, values.")
+    "then encode_group over _msgs in order; R02.6 the routine that computes the CheckSum (Message::calc_chksum) satisfies the range, stride and "
+    "carry-bookkeeping rules of C07. NOT decided: group count vs. element count, values.")
 
 M = 'FIX8::Message::'
 MB = 'FIX8::MessageBase::'
@@ -189,5 +191,8 @@ def run(ctx):
     unk = [c for c in me.calls() if c.callee is not None and c.callee.get('n') == 'copy' and c.obj is not None and q.refers_to_member(c.obj, MB + '_unknown')]
     ctx.check(len(unk) == 1 and me.cfg.dominates(me.cfg.block_in[me.cfg.V[me.cfg.vertex_of(fr[0].child('range'))].block] if fr else 0, me.cfg.vertex_of(unk[0])), 'R02.5',
               MB + 'encode#unknown-last', me.loc, 'pass-through bytes follow the positioned fields')
+    # R02.6 the CheckSum field is computed by Message::calc_chksum: range, stride and carry bookkeeping rules of C07 apply
+    c07.rules(ctx, prog, rid='R02.6')
+    ctx.floor('R02.6', 8)
     ctx.floor('R02.1', 12)
     ctx.floor('R02.2', 8)
